@@ -40,7 +40,20 @@ def gen_term(rng):
 def gen_cases(seed, tier):
     rng = random.Random(seed * 31337 + 16)
     n = 1500 if tier == "quick" else 20000
-    return [{"terms": [gen_term(rng) for _ in range(rng.randint(1, 4))]} for _ in range(n)]
+    cases = [{"terms": [gen_term(rng) for _ in range(rng.randint(1, 4))]} for _ in range(n)]
+    # shared hyperparameters: several families in ONE interface with the same two numbers (a < b, both > 0, valid for every
+    # family), in random order: no state may be shared between the terms of one prior (seeded change S_C16: a normaliser cache
+    # keyed by the hyperparameters only)
+    for _ in range(n // 10):
+        a = rng.choice([0.5, 1.5, 2.0, 2.5]); b = rng.choice([3.0, 4.0, 5.0]); fams = rng.sample(["gamma", "beta", "gaussian", "log-gaussian", "uniform", "log-uniform"], rng.randint(2, 4))
+        if rng.random() < 0.7 and not {"gamma", "beta"} <= set(fams): fams = ["gamma", "beta"] + fams[:2]; rng.shuffle(fams)
+        U = lambda lo, hi: round(rng.uniform(lo, hi), 4)
+        terms = []
+        for fam in fams:
+            x = {"gamma": U(0.05, 6), "beta": U(0.01, 0.99), "gaussian": U(-5, 8), "log-gaussian": U(0.05, 9), "uniform": U(a, b), "log-uniform": U(a, b)}[fam]
+            terms.append([False, fam, a, b, x])
+        cases.append({"terms": terms, "family": "shared-hyperparameters"})
+    return cases
 
 _CACHE = {}
 def logpdf(t):
@@ -154,5 +167,5 @@ def shrink(case, fails):
 def stats(cases):
     from collections import Counter
     return {"families": dict(Counter(t[1] for c in cases for t in c["terms"])), "n_params": dict(Counter(str(len(c["terms"])) for c in cases)),
-            "positive_flag": sum(1 for c in cases for t in c["terms"] if t[0])}
+            "positive_flag": sum(1 for c in cases for t in c["terms"] if t[0]), "shared_hyperparameter_cases": sum(1 for c in cases if c.get("family"))}
 def key(case): return json.dumps(case["terms"])
